@@ -130,6 +130,20 @@ def origin_slots(ctx, ht, rule):
         res = ht.resolver(s)
         e = s.value
         d = res(U(e)) if isinstance(e, ast.Name) else e
+        if d is None and isinstance(e, ast.Name):
+            # defined differently per branch: take the definition in force on the regular (not unstructured) paths
+            fm_ = ht.fm(s.func)
+            cands = set()
+            for facts in fm_.paths_at(s.stmt):
+                if ('T', 'unstructured') in facts:
+                    continue
+                dd = fm_.resolve_def(e.id, facts)
+                if dd is not None:
+                    cands.add(dd)
+            if len(cands) == 1:
+                d = ast.parse(cands.pop(), mode='eval').body
+        if d is None:
+            raise AnalysisError('%s: cannot find what `%s` is bound to on the regular branch' % (s.func.qualname, U(e)))
         # regular branch of `A if unstructured else B`
         reg = d.orelse if isinstance(d, ast.IfExp) and 'unstructured' in U(d.test) else d
         n += 1
